@@ -196,6 +196,28 @@ func (v *Val) Build(order int) interface{} {
 		return time.Unix(v.I, 0).UTC()
 	case "account": // Account{Profile{S, I}, "plan-"+S}
 		return Account{Profile: Profile{Nick: v.S, Rank: int(v.I)}, Plan: "plan-" + v.S}
+	case "people": // []Person: struct VALUES whose slices and maps still share memory with the caller's
+		out := make([]Person, 0, len(v.L)+2)
+		for _, e := range v.L {
+			out = append(out, Person{Name: e.S, Age: int(e.I), Tags: []string{"z-" + e.S, "a-" + e.S, "m-" + e.S}, Meta: map[string]interface{}{"k": e.S}})
+		}
+		return out
+	case "mos": // map[string][]int
+		out := map[string][]int{}
+		for _, kv := range ents() {
+			var l []int
+			for _, e := range kv.V.L {
+				l = append(l, int(e.I))
+			}
+			out[kv.K] = l
+		}
+		return out
+	case "pptr": // **Person
+		p := &Person{Name: v.S, Age: int(v.I), Tags: []string{"t"}}
+		return &p
+	case "inil": // an interface holding a typed nil pointer
+		var p *Person
+		return p
 	case "bytes":
 		return []byte(v.S)
 	case "buffer": // *bytes.Buffer: a value whose own methods (WriteTo, Read, Next) consume it
